@@ -262,3 +262,8 @@ def replay(case):
     except Violation as v:
         return f"{v.bucket}: {v.message}"
     return None
+
+
+def warmup():
+    from vf import build as _b
+    _b.warmup()
